@@ -337,6 +337,34 @@ def canon(s):
         if c < 0:
             break
         s = s[:m.start()] + s[m.end():c] + s[c + 1:]
+    # `ok(A)@OK` (payload of Result::ok) and `map_err(A, f)@OK` / `inspect_err(A, f)@OK` are the Ok payload of A itself
+    for _ in range(20):
+        hit = False
+        for m_ in re.finditer(r"(?<![A-Za-z_])(ok|map_err|inspect_err|or_else)\(", s):
+            o = m_.end() - 1
+            c = _match_paren(s, o)
+            if c < 0 or not s.startswith("@OK", c + 1):
+                continue
+            inner = s[o + 1:c]
+            if m_.group(1) != "ok":
+                d = 0
+                cut = -1
+                for j, ch in enumerate(inner):
+                    if ch in "([{":
+                        d += 1
+                    elif ch in ")]}":
+                        d -= 1
+                    elif d == 0 and inner.startswith(", ", j):
+                        cut = j
+                        break
+                if cut < 0:
+                    continue
+                inner = inner[:cut]
+            s = s[:m_.start()] + inner + s[c + 1:]
+            hit = True
+            break
+        if not hit:
+            break
     # map(A, f)@OK with f a function path  ==  f(A@OK)
     for _ in range(20):
         m = None
